@@ -12,6 +12,7 @@ import os
 from typing import TYPE_CHECKING
 
 from exabgp.util import hexstring
+from exabgp.util import peertext
 
 if TYPE_CHECKING:
     from typing import Any
@@ -182,7 +183,7 @@ class Text:
         # free text the peer chose, and not promised to be UTF-8
         raw = operational.data
         data = bytes(raw).decode('utf-8', 'replace') if isinstance(raw, (bytes, bytearray, memoryview)) else raw
-        return f'neighbor {neighbor.session.peer_address} {direction} operational {operational.name} afi {operational.afi} safi {operational.safi} advisory "{oneline(data)}"{self._header_body(header, body)}'
+        return f'neighbor {neighbor.session.peer_address} {direction} operational {operational.name} afi {operational.afi} safi {operational.safi} advisory "{oneline(peertext(data))}"{self._header_body(header, body)}'
 
     def _operational_query(
         self, neighbor: 'Neighbor', direction: str, operational: 'OperationalFamily', header: bytes, body: bytes
